@@ -391,6 +391,41 @@ def main():
     L.append("/-- `QuicSendStream::finish`: no path returns before `stopped().await` -/")
     L.append(f"abbrev FINISH_AWAITS_STOPPED : Bool := {'false' if early else 'true'}")
 
+    # ---- driver/streams/mod.rs: which operations does each method of the stream wrappers invoke?
+    # (`self.0.<op>(` = quinn's stream, `self.<m>(` = another wrapper method)
+    def wrapper_calls(type_name):
+        mm = need(re.search(r"\nimpl " + type_name + r" \{", s2), f"{rel2}: impl {type_name}")
+        d, e = 1, mm.end()
+        while e < len(s2) and d > 0:
+            d += {"{": 1, "}": -1}.get(s2[e], 0)
+            e += 1
+        block = re.sub(r"//[^\n]*", "", s2[mm.end():e - 1])
+        out = []
+        for fm in re.finditer(r"\bfn (\w+)\s*(?:<[^>]*>)?\(", block):
+            ob = block.find("{", fm.end())
+            if ob < 0:
+                continue
+            d2, e2 = 1, ob + 1
+            while e2 < len(block) and d2 > 0:
+                d2 += {"{": 1, "}": -1}.get(block[e2], 0)
+                e2 += 1
+            body = block[ob + 1:e2 - 1]
+            calls = []
+            for cm in re.finditer(r"\bself\s*\.\s*(0\s*\.\s*)?(\w+)\s*\(", body):
+                nm_ = ("0." if cm.group(1) else "") + cm.group(2)
+                if nm_ not in calls:
+                    calls.append(nm_)
+            out.append((fm.group(1), calls))
+        if not out:
+            raise Missing(f"{rel2}: methods of {type_name}")
+        return out
+    for nm, ty in (("SEND_WRAPPER_CALLS", "QuicSendStream"), ("RECV_WRAPPER_CALLS", "QuicRecvStream")):
+        wc = wrapper_calls(ty)
+        ex[nm] = wc
+        L.append(f"/-- `{ty}`: per method, the quinn operations (`0.x`) and wrapper methods it invokes, in source order -/")
+        L.append(f"def {nm} : List (String × List String) := [" +
+                 ", ".join('("' + m_ + '", [' + ", ".join(f'"{c_}"' for c_ in cs) + "])" for m_, cs in wc) + "]")
+
     # ---- driver/streams/{settings,connect}.rs: does the frame read in progress survive the drop of run()'s future?
     for nm, relx in (("CONTROL_READ_PERSISTS_SETTINGS", "wtransport/src/driver/streams/settings.rs"),
                      ("CONTROL_READ_PERSISTS_CONNECT", "wtransport/src/driver/streams/connect.rs")):
